@@ -29,13 +29,13 @@ def gen(chk):
         cases.append(l)
     real = T.real_txs()
     big = chk.tier == "thorough"
-    base = [b for _, b in real] + [T.gen_raw(rng, big) for _ in range(300 if chk.tier == "quick" else 1500)]
+    base = [b for _, b in real] + [T.gen_raw(rng, big) for _ in range(300 if chk.tier == "quick" else 4000)]
     for b in base:
         add(b.hex())
     for b in base[:40]:
         for k in range(0, len(b), max(1, len(b) // 60)):
             add(b[:k].hex())
-    for _ in range(2500 if chk.tier == "quick" else 12000):
+    for _ in range(2500 if chk.tier == "quick" else 40000):
         b = rng.choice(base)
         for _ in range(rng.randrange(1, 3)):
             b = T.mutate(rng, b)
